@@ -18,35 +18,52 @@ Fixpoint nat_list_eqb (a b : list nat) : bool :=
   | _, _ => false
   end.
 
+Fixpoint bool_list_eqb (a b : list bool) : bool :=
+  match a, b with
+  | [], [] => true
+  | x :: a', y :: b' => Bool.eqb x y && bool_list_eqb a' b'
+  | _, _ => false
+  end.
+
+(* forced exit (the UserWarning) per component; every component starts at level 0
+   (theorem tolerance_restored) *)
+Definition forced_flags (tbl : list (list nat)) (maxit : nat) (adapt : bool) (ncomp : nat) : list bool :=
+  map (fun k => match component_loop (conv_tbl tbl k) maxit adapt 0 with
+                | Some st => l_forced st | None => false end) (seq 0 ncomp).
+
 (* observed numbers of updates per component = the model's, the tolerance is back
-   at the user's level at the end, every count within 2*max+1 *)
+   at the user's level at the end, every count within 2*max+1, forced exits agree *)
 Definition counts_ok (tbl : list (list nat)) (maxit : nat) (adapt : bool) (ncomp : nat)
-           (observed : list nat) : bool :=
+           (observed : list nat) (forced : list bool) : bool :=
   match fit_loop ncomp (conv_tbl tbl) maxit adapt with
   | Some (cs, lv) => nat_list_eqb cs observed && (lv =? 0)%nat &&
-                     forallb (fun c => (c <=? 2 * maxit + 1)%nat) cs
+                     forallb (fun c => (c <=? 2 * maxit + 1)%nat) cs &&
+                     bool_list_eqb (forced_flags tbl maxit adapt ncomp) forced
   | None => false
   end.
 Definition all_counts_ok (maxit : nat) (adapt : bool)
-           (cases : list (list (list nat) * nat * list nat)) : bool :=
-  forallb (fun c => counts_ok (fst (fst c)) maxit adapt (snd (fst c)) (snd c)) cases.
+           (cases : list (list (list nat) * nat * list nat * list bool)) : bool :=
+  forallb (fun c => counts_ok (fst (fst (fst c))) maxit adapt (snd (fst (fst c))) (snd (fst c)) (snd c)) cases.
 Definition model_counts (tbl : list (list nat)) (maxit : nat) (adapt : bool) (ncomp : nat) :=
   fit_loop ncomp (conv_tbl tbl) maxit adapt.
 
 (* ---- numeric part ---- *)
 Definition mk_comp (u v w : list Q) (su sv sw : Q) : rawcomp Q := ((u, v, w), (su, sv, sw)).
 
-(* scores (as columns), flattened eigenimages, reconstruction, residual energy *)
+(* scores (as columns), flattened eigenimages, reconstruction, residual energy.
+   [fit_num] is evaluated once; [fit_scores X comps] is by definition
+   [score_cols (fst (fit_num X comps)) (map unit_u comps)]. *)
 Definition fit_tie (tol etol : Q) (n : nat) (X : list Q) (comps : list (rawcomp Q))
            (S_impl img_impl : list (list Q)) (rec_impl : list Q) (err_impl : Q) : bool :=
-  let S := fit_scores opsQ X comps in
+  let fn := fit_num opsQ X comps in
+  let S := score_cols opsQ (fst fn) (map (unit_u opsQ) comps) in
   let imgs := map (@concat Q) (fit_images opsQ comps) in
-  let r := snd (fit_num opsQ X comps) in
+  let r := snd fn in
   mclose tol S S_impl && mclose tol imgs img_impl
   && vclose tol (recon_scores opsQ n S imgs) rec_impl
   && vclose tol (vsub opsQ X r) rec_impl
   && qclose etol (sqnorm opsQ r) err_impl
-  && qclose etol (Qred (sqnorm opsQ X - sqnorm opsQ (fst (fit_num opsQ X comps)))) err_impl.
+  && qclose etol (Qred (sqnorm opsQ X - sqnorm opsQ (fst fn))) err_impl.
 
 (* the normalize option: ns = oracle values of the L2 norms of the eigenimages *)
 Definition fit_tie_normalized (tol : Q) (n : nat) (x1 x2 : list Q) (X : list Q)
